@@ -22,13 +22,16 @@ CONSTANTS Depth,
           BugSharedInstance,   \* TRUE: all infinite screens share one module-level generator
           Emit
 
-Params == {"A", "B"}                 \* two finite-screen parameter sets; N(A) = 4, N(B) = 6
-NOf(p) == IF p = "A" THEN 4 ELSE 6
+Params == {"A", "B", "A2"}           \* finite-screen parameter sets; N(A) = 4, N(B) = 6; A2 = A with r0 changed in the 6th digit
+NOf(p) == IF p = "B" THEN 6 ELSE 4
 IntSeeds == {0, 1, 2}          \* integer seeds (0 is a legitimate seed); in the log: -1 = the Generator object G, -2 = None
-Objs == {"o1", "o2", "o3"}
-\* object configurations: o1 and o2 are twins (same class, parameters and seed), o3 differs
-ObjCfg(o) == IF o = "o3" THEN [variant |-> "fried", seed |-> 2, nx |-> 5, slen |-> 10]
-             ELSE [variant |-> "vk", seed |-> 1, nx |-> 4, slen |-> 4]
+Objs == {"o1", "o2", "o3", "o4", "o5"}
+\* object configurations: o1 and o2 are twins (same class, parameters and seed); o3 is a Fried screen; o4 has the geometry,
+\* outer scale and seed of the twins but another r0; o5 is a larger von Karman screen
+ObjCfg(o) == CASE o = "o3" -> [variant |-> "fried", seed |-> 2, nx |-> 5, slen |-> 10, r0 |-> 1]
+               [] o = "o4" -> [variant |-> "vk", seed |-> 1, nx |-> 4, slen |-> 4, r0 |-> 2]
+               [] o = "o5" -> [variant |-> "vk", seed |-> 3, nx |-> 6, slen |-> 6, r0 |-> 1]
+               [] OTHER -> [variant |-> "vk", seed |-> 1, nx |-> 4, slen |-> 4, r0 |-> 1]
 
 VARIABLES glob,      \* numpy's global stream: [epoch, pos]; epoch changes at every numpy.random.seed
           gen,       \* the user's own Generator object G passed as `seed=`: position
@@ -85,7 +88,7 @@ FtShGen(p) ==      \* one shared stream: the nested call draws first, then the s
 
 \* ---- infinite screens
 ObjStream(o) == IF BugSharedInstance THEN <<"module", 0>> ELSE SeedStream(ObjCfg(o).seed)
-SharedPos == IF BugSharedInstance THEN obj["o1"].pos + obj["o2"].pos + obj["o3"].pos ELSE 0
+SharedPos == IF BugSharedInstance THEN obj["o1"].pos + obj["o2"].pos + obj["o3"].pos + obj["o4"].pos + obj["o5"].pos ELSE 0
 NewScreen(o) ==
     /\ ~obj[o].made
     /\ LET c == ObjCfg(o)  start == IF BugSharedInstance THEN SharedPos ELSE 0
